@@ -228,6 +228,7 @@ class Intrinsics:
         fields, ghosts = set(), set()
         seen = set()
         precise = {}          # field -> set of receiver names, or None when unknown
+        self.last_imprecise = False
 
         def related(owner, cls):
             if cls is None:
@@ -254,6 +255,28 @@ class Intrinsics:
                     precise.setdefault(field, set()).add(recv.id)
             else:
                 precise[field] = None
+
+        # locals of the function under analysis that are assigned exactly once, from `self.<attr>`
+        aliases = {}
+        cur = getattr(getattr(eng, 'cur', None), 'node', None)
+        if cur is not None and not eng.inline_class_stack[1:]:
+            counts = {}
+            for x in ast.walk(cur):
+                if isinstance(x, (ast.Assign, ast.AugAssign, ast.AnnAssign, ast.For, ast.With,
+                                  ast.NamedExpr)):
+                    tg = (x.targets if isinstance(x, ast.Assign) else
+                          [getattr(x, 'target', None)] if not isinstance(x, ast.With) else
+                          [i.optional_vars for i in x.items])
+                    for t in tg:
+                        for nm in ast.walk(t) if t is not None else ():
+                            if isinstance(nm, ast.Name):
+                                counts[nm.id] = counts.get(nm.id, 0) + 1
+                if isinstance(x, ast.Assign) and len(x.targets) == 1 \
+                        and isinstance(x.targets[0], ast.Name) \
+                        and isinstance(x.value, ast.Attribute) \
+                        and isinstance(x.value.value, ast.Name) and x.value.value.id == 'self':
+                    aliases[x.targets[0].id] = x.value.attr
+            aliases = {k: v for k, v in aliases.items() if counts.get(k) == 1}
 
         def scan(ns, cls_hint, depth, self_ok=True):
             for n in ns:
@@ -297,6 +320,11 @@ class Intrinsics:
                         # repo methods: union of callee modifies (contract) or scan (inline);
                         # the receiver's class narrows the candidates when it is evident
                         rcls = None
+                        if isinstance(recv, ast.Name) and depth == 0 and recv.id in aliases:
+                            # a local that caches an attribute of self (`x = self._y`, assigned
+                            # once): the call goes to the class of that attribute
+                            recv = ast.Attribute(value=ast.Name(id='self', ctx=ast.Load()),
+                                                 attr=aliases[recv.id], ctx=ast.Load())
                         if isinstance(recv, ast.Name):
                             if recv.id == 'self':
                                 rcls = cls_hint
@@ -311,6 +339,13 @@ class Intrinsics:
                                     fty = fty.args[0]
                                 if fty.kind == 'obj':
                                     rcls = fty.cls.rstrip('?')
+                        if rcls is None and not (isinstance(recv, ast.Name) and recv.id == 'self'):
+                            owners = set(fi.cls for fi in eng.prog.funcs.values()
+                                         if fi.node.name == meth and fi.cls is not None)
+                            if len(owners) > 1:
+                                # the receiver's class is not evident and several classes have a
+                                # method of this name: the frame is the union -- an over-estimate
+                                self.last_imprecise = True
                         for q, fi in eng.prog.funcs.items():
                             if fi.node.name == meth and (rcls is None or fi.cls is None
                                                          or related(fi.cls, rcls)):
